@@ -234,6 +234,11 @@ func (l *commitLog) Append(msgs []*Message) ([]int64, error) {
 	if l.IsReadonly() {
 		return nil, ErrCommitLogReadonly
 	}
+	// An empty batch has no offsets to assign and nothing to write, so leave
+	// the log alone. The segment expects at least one entry per write.
+	if len(msgs) == 0 {
+		return []int64{}, nil
+	}
 	if _, err := l.checkAndPerformSplit(); err != nil {
 		return nil, err
 	}
